@@ -271,20 +271,10 @@ pub fn number_to_fixed(
     Ok(Guarded::unguarded(JsValue::String(JsString::from(result))))
 }
 
-/// Format a number as a string in JavaScript format
-/// (handles Infinity, -Infinity, NaN properly)
+/// Format a number as a string in JavaScript format: the same conversion
+/// as `String(n)` (notation switch at 1e21 / 1e-6, shortest digits).
 fn format_number_js(n: f64) -> String {
-    if n.is_nan() {
-        "NaN".to_string()
-    } else if n.is_infinite() {
-        if n.is_sign_positive() {
-            "Infinity".to_string()
-        } else {
-            "-Infinity".to_string()
-        }
-    } else {
-        format!("{}", n)
-    }
+    crate::value::number_to_string(n)
 }
 
 // Number.prototype.toString
